@@ -79,6 +79,10 @@ def norm_gather(s):
     if s in ("default()", "GatheringSettings::default()", "None"):
         # protocols::valve::query turns None into GatheringSettings::default()
         return GATHER_DEFAULT
+    # field order of a struct literal is not significant
+    m = re.match(r"^(\w+)\{(.*)\}$", s)
+    if m and "{" not in m.group(2):
+        s = "%s{%s}" % (m.group(1), ", ".join(sorted(x.strip() for x in m.group(2).split(","))))
     return s
 
 
